@@ -2,7 +2,7 @@
 import numpy as np
 
 from pymbolic.mapper.stringifier import (
-    PREC_CALL, PREC_LOGICAL_OR, PREC_NONE, PREC_PRODUCT, StringifyMapper)
+    PREC_CALL, PREC_LOGICAL_OR, PREC_NONE, PREC_PRODUCT, PREC_SUM, StringifyMapper)
 
 
 __copyright__ = "Copyright (C) 2014 Matt Wala"
@@ -154,7 +154,18 @@ class PythonExpressionMapper(StringifyMapper):
         if isinstance(expr, np.generic):
             expr = expr.item()
 
-        return repr(expr)
+        result = repr(expr)
+
+        # As in the base class: a signed constant (e.g. -3 as the base of a
+        # power, where Python reads -3**2 as -(3**2)) needs parentheses
+        # wherever a sum would.
+        enclosing_prec = args[0] if args else PREC_NONE
+        if (not (result.startswith("(") and result.endswith(")"))
+                and ("-" in result or "+" in result)
+                and enclosing_prec > PREC_SUM):
+            return "(%s)" % result
+
+        return result
 
     def map_foreign(self, expr, *args):
         if expr is None:
